@@ -30,6 +30,38 @@ OPS = "tangelo/toolboxes/operators/operators.py"
 GUCC = "tangelo/toolboxes/ansatz_generator/_general_unitary_cc.py"
 
 
+def check_hcb_penalties(idx: Index, rep: Report):
+    """Penalty terms under the hard-core-boson encoding ("under every encoding"): the library's penalty builders are folded into term dictionaries (order-aware
+    operator stand-ins, the checker's normal ordering), sent through the folded hard-core-boson chain and compared with the exact restriction of the same
+    operator to the paired determinants - where the particle-number penalty is mu (2 * pairs - n)^2 and the spin penalties vanish."""
+    import numpy as np
+    from ..consteval import Raised, Undecidable
+    from ..rules import ofmodel as om
+    from .C03 import boson_matrix, hcb_encode, paired_block
+    rule = "K9.hcb-penalties"
+    for fname, args in (("number_operator_penalty", {"n_electrons": 2}), ("spin_operator_penalty", {"sz": 0}), ("spin2_operator_penalty", {"s2": 0})):
+        g = idx.function(f"{PEN}::{fname}")
+        bad = []
+        for n_mos in (2, 3):
+            fo = cs.make_folder(idx, PEN, ctors={"FermionOperator": lambda a, k: om.OrdFermionOp(*a, **k), "normal_ordered": lambda a, k: om.normal_ordered(a[0])})
+            try:
+                op = fo.run_function(g.node, dict(args, n_orbs=n_mos, mu=1.5, up_then_down=False))
+                bos = hcb_encode(idx, dict(op.terms))
+            except Undecidable as e:
+                raise AnalysisError(f"{fname} / hard-core-boson chain not foldable: {e}")
+            except Raised as e:
+                bad.append(f"{n_mos} orbitals: raises {e.exc_type}")
+                continue
+            got, want = boson_matrix(bos, n_mos), paired_block(dict(op.terms), n_mos)
+            if float(np.max(np.abs(got - want))) >= 1e-9:
+                bad.append(f"{n_mos} orbitals: encoded diagonal {np.round(np.real(np.diag(got)), 6).tolist()}, exact values on the paired determinants "
+                           f"{np.round(np.real(np.diag(want)), 6).tolist()} (terms with up to {max(len(t) for t in op.terms)} ladder operators)")
+        rep.decide(not bad, rule, g, g.node, text=f"{fname} under the hard-core-boson encoding",
+                   what="the encoded penalty is the restriction of the penalty operator to the paired determinants the encoding represents (zero on the targeted sector)",
+                   reason="; ".join(bad) + " - the coefficient extraction of the encoder reads one- and two-body terms only; the products of three and four pairs of ladder "
+                          "operators in (S^2 - s)^2 are dropped without notice")
+
+
 def check_adapt_word_angles(idx: Index, rep: Report):
     """ADAPT writes every Pauli word of a pool operator as its own rotation; the state stays in the particle-number and spin sector only if the words of one
     operator rotate by +theta or -theta according to the sign the operator gives them (pairs such as XY - YX conserve the number of particles, XY + YX or
@@ -110,6 +142,7 @@ def run(idx: Index, rep: Report, tier: str):
     check_spin_source(idx, rep)
     check_pool_conservation(idx, rep, tier)
     check_adapt_word_angles(idx, rep)
+    check_hcb_penalties(idx, rep)
     # "for all parameter values": a parameter vector also reaches the circuit through update_var_params; the particle-conserving structure is that
     # of the *built* circuit, so the updated circuit has to be the built one (necessary condition, decided as in C07)
     from . import C07
